@@ -225,4 +225,34 @@ func init() {
 		[]Stage{bfs("lsm", 6, 900, prm("oracle", "c12", "mode", "normal", "keys", 2, "big", true, "gc", true, "vlog_max_entries", 1, "l0_tables", 1, "ops", "Ba Bb Sa Da F C0 C1 G Ka Ia Z O X"), seq("Ba Bb F"), seq("Ba Bb Ba F C0")),
 			bfs("lsm", 5, 600, prm("oracle", "c12", "mode", "managed", "keys", 2, "big", true, "gc", true, "vlog_max_entries", 2, "l0_tables", 1, "ops", "Ba Bb Da F C0 T G Ka Ia Z"), seq("Ba Bb Ba F")),
 			sched("c15gc", 3, 16, 300, prm("variant", "iter")), sched("c15gc", 3, 16, 600, prm("variant", "delete"))})
+
+	planTable["C07"] = lsmPlan("Every state of the managed- and normal-mode operation-sequence space (writes, deletes, value-log values, flushes, compactions, discard-timestamp moves) is closed and re-opened read-write and, separately, read-only: the dump of ALL retained versions (including internal keys) must be identical before Close and after Open, reads at every timestamp >= the discard timestamp equal the model afterwards, and a read-only open + full read + close leaves every file byte-identical (name, size, content hash). Variants with CompactL0OnClose and different compaction settings compare visible reads.",
+		stateRule,
+		[]Stage{bfs("lsm", 4, 50, prm("oracle", "c12", "keys", 2, "reopen", true, "readonly", true, "big", true, "ops", "Sa Ba Da F C0 T R RO")), bfs("lsm", 4, 40, prm("oracle", "c12", "mode", "normal", "keys", 2, "reopen", true, "readonly", true, "ops", "Sa Sb Da F C0 R RO"))},
+		[]Stage{bfs("lsm", 6, 900, prm("oracle", "c12", "keys", 2, "reopen", true, "readonly", true, "big", true, "ops", "Sa Sb Ba Da F C0 C1 T R RO")), bfs("lsm", 6, 600, prm("oracle", "c12", "mode", "normal", "keys", 2, "reopen", true, "readonly", true, "ops", "Sa Sb Da F C0 C1 R RO")), bfs("lsm", 5, 600, prm("oracle", "c12", "keys", 2, "reopen", true, "closecompact", true, "ops", "Sa Sb Da F C0 T R CX"))})
+	planTable["C37"] = lsmPlan("The managed- and normal-mode operation-sequence spaces of C12/C01 are executed on an InMemory database against the SAME reference model that the on-disk runs are checked against (so both modes agree on every read at every step); after every transition the process must hold no regular file open (scan of /proc/self/fd) and its scratch directory must still be empty.",
+		stateRule,
+		[]Stage{bfs("lsm", 4, 40, prm("oracle", "c12", "keys", 2, "inmemory", true, "nofiles", true)), bfs("lsm", 4, 40, prm("oracle", "c12", "mode", "normal", "keys", 2, "inmemory", true, "nofiles", true, "ops", "Sa Sb Da F C0 C1 O X"))},
+		[]Stage{bfs("lsm", 6, 600, prm("oracle", "c12", "keys", 2, "inmemory", true, "nofiles", true)), bfs("lsm", 6, 600, prm("oracle", "c12", "mode", "normal", "keys", 2, "inmemory", true, "nofiles", true, "ops", "Sa Sb Da Db F C0 C1 O X A"))})
+	planTable["C33"] = lsmPlan("Normal-mode histories mixing expiring (TTL 5 s), non-expiring and deleted versions with flushes, compactions, value-log GC and virtual-clock advances (11 s): after every transition Get, forward/reverse iteration (and the retained-version dump) show an entry iff now < expiresAt; an expired newest version hides older ones; a newer plain write is visible.",
+		stateRule,
+		[]Stage{bfs("lsm", 5, 70, prm("oracle", "c12", "mode", "normal", "keys", 1, "ttl", true, "l0_tables", 1, "ops", "Sa La Da F C0 A O X"))},
+		[]Stage{bfs("lsm", 7, 900, prm("oracle", "c12", "mode", "normal", "keys", 2, "ttl", true, "l0_tables", 1, "ops", "Sa La Sb Da F C0 C1 A O X")), bfs("lsm", 5, 600, prm("oracle", "c12", "mode", "normal", "keys", 1, "ttl", true, "big", true, "gc", true, "vlog_max_entries", 1, "l0_tables", 1, "ops", "Ba La Da F C0 G A"))})
+
+	planTable["C22"] = func(q bool) *Plan {
+		p := &Plan{Level: "model_checking", Engine: "E-sched + E-enum",
+			Text:      "Sequential: every put sequence of length <= 4 (quick) / 5 (thorough) over 4 internal keys (two versions of one key, a key extending it, overwrites) with tower heights enumerated from {1,2,3} per insert; after every put Get, forward/reverse iteration, Seek and SeekForPrev on 28 probes equal a sorted-map model. Concurrent: two putters (same-key overwrite race, adjacent keys, overwrite next to an insert) and a reader (Gets / forward scan / reverse scan), every atomic load/store/CAS in skl and the arena being a schedule point, tower heights enumerated from {1,2}: every Get returns a value some put wrote (self-checking values: no torn or placeholder values), a put that returned is visible, returned values never change afterwards, scans are strictly sorted without duplicates and contain every key put before they began, the final list is the sorted map of last writers.",
+			Note:      "Fine mode: sync/atomic in skl and y is replaced by a same-layout shim whose every operation is a schedule point; sequentially consistent interleavings only (plain data races are looked for by the separate -race pass).",
+			Technique: "stateless model checking at atomic-operation granularity (controlled scheduler, preemption-bounded DFS) plus exhaustive sequential enumeration",
+			Rule:      "48 (height pattern x key layout x reader kind) cases x schedules up to the bound; distinct = distinct observation tuples"}
+		fine := func(bound int, budget float64) Stage {
+			return Stage{Binary: "badger.fine", Scenario: "c22conc", Bound: bound, NShard: 16, BudgetS: budget, Params: prm("cases", 144)}
+		}
+		if q {
+			p.Stages = []Stage{en("c22seq", 16, 40, prm("len", 4)), fine(1, 30), fine(2, 60)}
+		} else {
+			p.Stages = []Stage{en("c22seq", 16, 600, prm("len", 5)), fine(2, 600), fine(3, 1200)}
+		}
+		return p
+	}
 }
